@@ -452,6 +452,28 @@ func driveFmt(args map[string]string) error {
 		return err
 	}
 	seed, n, mode := uint64(argInt(args, "seed", 1)), argInt(args, "n", 1000), argStr(args, "mode", "c12")
+	if mode == "deep" {
+		id, seq, stride := 0, 0, argInt(args, "stride", 1)
+		plain := fmtG{fmtOpts: fmtOpts{Indent: []int{-1}, Prefix: []int{}, SAC: -1, SACM: -1}, Set: []string{}}
+		for _, d := range []int{10000, 10001} {
+			pats := []func(int) bool{func(i int) bool { return false }, func(i int) bool { return true },
+				func(i int) bool { return i == d-1 }, func(i int) bool { return i != d-1 }}
+			for _, pat := range pats {
+				for _, entry := range []string{"format", "compact", "canon"} {
+					seq++
+					if (seq-1)%stride != 0 {
+						continue
+					}
+					id++
+					c := fmtCase{ID: id, Prop: argStr(args, "prop", "C20"), Entry: entry, G: plain, Src: ints(nested(d, pat, "")), Pair: []int{}, POut: []int{}}
+					fmtExec(&c)
+					out.put(c)
+				}
+			}
+		}
+		summary(map[string]any{"cases": id, "accepted": 0, "pairs": 1})
+		return nil
+	}
 	var wg sync.WaitGroup
 	var nok, npairs atomic.Int64
 	workers := runtime.NumCPU()
